@@ -139,6 +139,31 @@ def derivative_check(t, case, setting, labels):
         i = int(np.argmin(np.isfinite(j_all) & (j_all > 0)))
         raise Violation(f"jacobian not positive/finite at x={x[i]!r}: "
                         f"{j_all[i]!r} params={t.params.values}")
+    # uncommon but legitimate ways of passing the points: a list of floats,
+    # and whole numbers given as Python ints (when they are in the domain)
+    if cls not in ("Softmax",):
+        jl = np.asarray(t.jacobian([float(v) for v in x]), dtype=np.float64)
+        if not np.allclose(jl, j_all, rtol=1e-12, atol=0, equal_nan=True):
+            raise Violation(f"jacobian(list of floats) {jl[:3]} differs "
+                            f"from jacobian(array) {j_all[:3]}")
+        ints = [k for k in (1, 2, 3, 5, 10) if np.all(np.isfinite(
+            np.asarray(t.forward(np.array([k - 0.5, k + 0.5])))))]
+        ji = None
+        if ints and cls != "YeoJohnson":
+            try:
+                # (integer input is refused by some classes - the result is
+                # never cast down silently; only judged when it is accepted)
+                ji = np.asarray(t.jacobian(list(ints)), dtype=np.float64)
+            except Exception:
+                labels.append("int-list:refused")
+        if ji is not None:
+            jf = np.asarray(t.jacobian(np.array(ints, dtype=np.float64)),
+                            dtype=np.float64)
+            if not np.allclose(ji, jf, rtol=1e-12, atol=0, equal_nan=True):
+                raise Violation(
+                    f"jacobian of whole numbers given as Python ints "
+                    f"{ints} = {ji.tolist()}, as floats {jf.tolist()} "
+                    f"params={dict(zip(t.params.names, t.params.values))}")
     if not ok.any():
         return False, pts, None
     xs, hs = x[ok], h[ok]
